@@ -3276,6 +3276,11 @@ def groupby_scan(
 def chunk_scan(inp: AlignedArrays, *, axis: int, agg: Scan, dtype=None, keepdims=None) -> ScanState:
     assert axis == inp.array.ndim - 1
 
+    if inp.group_idx.size == 0:
+        # a zero-length block: nothing to scan, and the kernels cannot size their output without a label
+        empty = inp.array if dtype is None else inp.array.astype(dtype)
+        return ScanState(result=AlignedArrays(array=empty, group_idx=inp.group_idx), state=None)
+
     # I don't think we need to re-factorize here unless we are grouping by a dask array
     accumulated = generic_aggregate(
         inp.group_idx,
@@ -3292,6 +3297,9 @@ def chunk_scan(inp: AlignedArrays, *, axis: int, agg: Scan, dtype=None, keepdims
 
 def grouped_reduce(inp: AlignedArrays, *, agg: Scan, axis: int, keepdims=None) -> ScanState:
     assert axis == inp.array.ndim - 1
+    if inp.group_idx.size == 0:
+        # a zero-length block has seen no group; chunk_reduce would answer with its float NaN placeholder label, which is not a code
+        return ScanState(state=AlignedArrays(array=inp.array.astype(agg.dtype), group_idx=inp.group_idx), result=None)
     reduced = chunk_reduce(
         inp.array,
         inp.group_idx,
